@@ -1189,7 +1189,10 @@ fn arg_layout_compatible(
             effective_a2.verify_backward_compatible(effective_version, effective_b2, is_return_position)?;
             Ok(true)
         }
-        (a, b) => Ok(a.layout_compatible(b)),
+        // A reference can only be passed as it is if, on both sides, the type in memory is
+        // also the type which the effective version describes. Otherwise two different versions
+        // of a type which happen to have the same layout would be taken for each other.
+        (a, b) => Ok(a.layout_compatible(b) && a == a_effective && b == b_effective),
     }
 }
 
